@@ -76,6 +76,45 @@ pub fn run_case(_ctx: &Ctx, case: &Value, tag: usize, rep: &mut Report, mb: &mut
                         if let Some(l) = lens(&m) { mb.push(format!("rb r {k}"), format!("ok {l}"), tag); }
                     }
                     let mut f = w.replay(&g, &toks);
+                    if rng.chance(1, 2) {
+                        // "blind" replacement: commit different tokens right after the rollback
+                        // without any query on the rolled-back engine in between (what a
+                        // speculative-decoding caller does); the tokens come from a shadow engine
+                        let nb = 1 + rng.below(3);
+                        let mut blind_ok = true;
+                        for _ in 0..nb {
+                            if f.is_stopped() { break; }
+                            let Ok(al) = eng::mask_of(&mut f) else { break };
+                            if al.is_empty() { break; }
+                            let t = *rng.pick(&al);
+                            let ra = m.consume_token(t).is_ok();
+                            let rb = f.consume_token(t).is_ok();
+                            oplog.push(format!("b{t}"));
+                            if ra != rb {
+                                rep.fail("oracle", "c12:blind-commit", format!("step {step}: after rollback, commit {t} without queries: engine {ra}, fresh replay {rb}"), repro.clone());
+                                blind_ok = false;
+                                break;
+                            }
+                            if !ra { blind_ok = false; break; }
+                            toks.push(t);
+                            if model_ok {
+                                if registered.insert(t) {
+                                    mb.push(format!("rb tok {t} {}", hex_or_underscore(&w.words[t as usize])), "ok".into(), tag);
+                                }
+                                if let Some(l) = lens(&m) {
+                                    if t == w.eos {
+                                        let extra = eng::vstate(&m).map(|st| st.lexer_stack_top_eos as u8).unwrap_or(0);
+                                        mb.push(format!("rb e {t} {extra}"), format!("ok {l}"), tag)
+                                    } else {
+                                        mb.push(format!("rb c {t}"), format!("ok {l}"), tag)
+                                    }
+                                }
+                            }
+                            rep.count("op.blind_commit");
+                        }
+                        if !blind_ok { break; }
+                    }
+                    if std::env::var("LLGV_TRACE").is_ok() { eprintln!("observe after {:?} toks {:?} bytes {:?}", oplog, toks, String::from_utf8_lossy(&toks.iter().flat_map(|t| w.words[*t as usize].clone()).collect::<Vec<u8>>())); }
                     let a = eng::observe(&mut m);
                     let b = eng::observe(&mut f);
                     if !compare(step, "rollback", &a, &b, rep, &repro) {
